@@ -389,6 +389,7 @@ class NetworkService(ModelElement):
         iff = Interface(name=name, node_id=node_id, parent_node_id=self.node_id,
                         etype=ElementType.NEW, topo=self.topo, itype=itype,
                         **kwargs)
+        self._interfaces.append(iff)
         return iff
 
     def remove_interface(self, *, name: str) -> None:
@@ -418,9 +419,7 @@ class NetworkService(ModelElement):
         # link them together with L2Path
         peer_link = Link(name=self_iface.name + '-link', topo=self.topo, etype=ElementType.NEW,
                          interfaces=[self_iface, other_iface], ltype=LinkType.L2Path)
-        # update interface lists
-        self._interfaces.append(self_iface)
-        ns._interfaces.append(other_iface)
+        # interface lists are updated by add_interface()
 
     def unpeer(self, ns) -> None:
         """
